@@ -51,6 +51,9 @@ struct World {
     nodes: Vec<NodeId>,      // every node id ever created, by slot
     func_kind: ItemKind,
     tys: [Type; 3],
+    // shadow model of the export table: every name a successful export / define_type bound, until it is unexported or
+    // its node disappears ("every query reflects exactly the surviving items")
+    exports: std::collections::BTreeMap<&'static str, NodeId>,
 }
 
 fn new_world() -> World {
@@ -64,6 +67,7 @@ fn new_world() -> World {
         nodes: vec![],
         func_kind: ItemKind::Value(ValueType::Primitive(PrimitiveType::U8)),
         tys: [Type::Value(ValueType::Defined(a)), Type::Value(ValueType::Defined(b)), Type::Value(ValueType::Defined(c))],
+        exports: Default::default(),
     };
     for i in 0..2 {
         register(&mut w, i);
@@ -85,6 +89,14 @@ fn live(w: &World, n: NodeId) -> bool {
 
 /// Applies one operation; Ok(true) = applied (state may have changed), Ok(false) = not applicable here.
 fn apply(w: &mut World, op: &Op) -> Result<bool, String> {
+    let r = apply_op(w, op);
+    // names held by nodes that did not survive this operation are gone (identifiers are reused by later operations)
+    let live_ids: HashSet<NodeId> = w.g.node_ids().collect();
+    w.exports.retain(|_, n| live_ids.contains(n));
+    r
+}
+
+fn apply_op(w: &mut World, op: &Op) -> Result<bool, String> {
     match *op {
         Op::Instantiate(p) => match w.pkgs[p] {
             Some(id) => { let n = w.g.instantiate(id); w.nodes.push(n); Ok(true) }
@@ -139,6 +151,7 @@ fn apply(w: &mut World, op: &Op) -> Result<bool, String> {
                 Ok(()) => {
                     if taken.is_some() { return Err(format!("export succeeded although `{}` was already exported", EXPORT_NAMES[e])); }
                     if w.g.get_export(EXPORT_NAMES[e]) != Some(w.nodes[s]) { return Err("export returned Ok but the name does not map to the node".into()); }
+                    w.exports.insert(EXPORT_NAMES[e], w.nodes[s]);
                 }
                 Err(_) => { if w.g.get_export(EXPORT_NAMES[e]) != taken { return Err("a failed export changed the export map".into()); } }
             }
@@ -151,6 +164,7 @@ fn apply(w: &mut World, op: &Op) -> Result<bool, String> {
             let r = w.g.unexport(n);
             if r.is_err() != was_def { return Err(format!("unexport: Err exactly for definitions violated (was_def={was_def})")); }
             if r.is_ok() {
+                w.exports.retain(|_, v| *v != n);
                 for name in EXPORT_NAMES.iter().chain(TYPE_NAMES.iter()) {
                     if w.g.get_export(name) == Some(n) { return Err(format!("after unexport the name `{name}` still maps to the node")); }
                 }
@@ -176,12 +190,21 @@ fn apply(w: &mut World, op: &Op) -> Result<bool, String> {
             None => Ok(false),
         },
         Op::Register(p) => {
-            if w.pkgs[p].is_some() { return Ok(false); }
+            if let Some(orig) = w.pkgs[p] {
+                // registering a package that is already registered is the documented error and must change nothing
+                let before = w.g.packages().count();
+                let bytes = wat::parse_str(PKG_WAT[p]).unwrap();
+                let dup = Package::from_bytes(&format!("t:p{p}"), None, bytes, w.g.types_mut()).unwrap();
+                if w.g.register_package(dup).is_ok() { return Err("registering an already registered package succeeded".into()); }
+                if w.g.packages().count() != before { return Err(format!("a failed register_package changed the number of registered packages ({before} -> {})", w.g.packages().count())); }
+                match w.g.get_package_by_name(&format!("t:p{p}"), None) { Some((id, _)) if id == orig => {}, other => return Err(format!("after a failed register_package the name resolves to {:?}, not to the registered package", other.map(|(i, _)| i))) }
+                return Ok(true);
+            }
             register(w, p);
             Ok(true)
         }
         Op::Define(t) => {
-            if let Ok(n) = w.g.define_type(TYPE_NAMES[t], w.tys[t]) { w.nodes.push(n); }
+            if let Ok(n) = w.g.define_type(TYPE_NAMES[t], w.tys[t]) { w.nodes.push(n); w.exports.insert(TYPE_NAMES[t], n); }
             Ok(true)
         }
     }
@@ -191,6 +214,11 @@ fn apply(w: &mut World, op: &Op) -> Result<bool, String> {
 fn check(w: &World) -> Result<(), String> {
     let g = &w.g;
     let live_ids: HashSet<NodeId> = g.node_ids().collect();
+    // the export table against the history
+    for name in EXPORT_NAMES.iter().chain(TYPE_NAMES.iter()) {
+        let expected = w.exports.get(name).copied().filter(|n| live_ids.contains(n));
+        if g.get_export(name) != expected { return Err(format!("get_export(`{name}`) = {:?}, the history of successful exports says {:?}", g.get_export(name), expected)); }
+    }
     // export names
     for name in EXPORT_NAMES.iter().chain(TYPE_NAMES.iter()) {
         if let Some(n) = g.get_export(name) {
